@@ -23,6 +23,26 @@ use crate::seams::ScriptedRng;
 pub fn near_miss(prog: &Program, rng: &mut Rng) -> (Program, &'static str) {
     let mut p = prog.clone();
     let n = p.ops.len();
+    // the same number of public inputs, one of them on another row
+    if rng.chance(1, 5) {
+        let flag = |op: &Op| match op {
+            Op::EvalOut { pi, q, .. } if q[3] != Sc::zero() => Some(*pi),
+            Op::GateAdd { pi, .. } | Op::GateMul { pi, .. } => Some(*pi),
+            _ => None,
+        };
+        let with: Vec<usize> = (0..n).filter(|i| flag(&p.ops[*i]) == Some(true)).collect();
+        let without: Vec<usize> = (0..n).filter(|i| flag(&p.ops[*i]) == Some(false)).collect();
+        if !with.is_empty() && !without.is_empty() {
+            let (a, b) = (with[rng.usize(with.len())], without[rng.usize(without.len())]);
+            for i in [a, b] {
+                match &mut p.ops[i] {
+                    Op::EvalOut { pi, .. } | Op::GateAdd { pi, .. } | Op::GateMul { pi, .. } => *pi = !*pi,
+                    _ => {}
+                }
+            }
+            return (p, "public_input_moved_to_another_row");
+        }
+    }
     for _ in 0..16 {
         let kind = rng.below(5);
         if n == 0 {
